@@ -19,7 +19,10 @@ use std::time::Instant;
 pub fn verif_root() -> String {
     std::env::var("VERIF_ROOT").unwrap_or_else(|_| "/verif".to_string())
 }
-pub const REPO_ROOT: &str = "/repo";
+/// The checkout under test: /repo, or VERIF_REPO (development aid, exported by `check`).
+pub fn repo_root() -> String {
+    std::env::var("VERIF_REPO").unwrap_or_else(|_| "/repo".to_string())
+}
 
 #[derive(Clone, Copy, PartialEq, Eq, Debug)]
 pub enum Tier {
@@ -129,14 +132,14 @@ pub fn root_panic(p: &[PanicRec]) -> Option<PanicRec> {
         .cloned()
 }
 fn is_repo_file(f: &str) -> bool {
-    f.starts_with("/repo/") || f.starts_with("bitar/") || f.starts_with("src/")
+    f.starts_with("/repo/") || f.starts_with(&format!("{}/", repo_root())) || f.starts_with("bitar/") || f.starts_with("src/")
 }
 /// Normalised text of the source line at a panic location, read from /repo.
 pub fn source_line(file: &str, line: u32) -> String {
     let path = if file.starts_with('/') {
         PathBuf::from(file)
     } else {
-        Path::new(REPO_ROOT).join(file)
+        Path::new(&repo_root()).join(file)
     };
     std::fs::read_to_string(path)
         .ok()
